@@ -12,8 +12,11 @@ package interp
 
 import (
 	"crypto/sha256"
+
 	"fmt"
 	"go/types"
+	"golang.org/x/crypto/ed25519"
+	"golang.org/x/crypto/sha3"
 
 	"gosym/sym"
 )
@@ -258,6 +261,15 @@ func init() {
 			msg, _ := args[1].([]value)
 			return tuple{[]value{&sigv{pub: string(priv[32:]), msg: msg}}, iface{}}
 		},
+		ed + ".GenPrivKeyFromSecret": func(fr *frame, args []value) value {
+			seed := sha256.Sum256(concreteBytes(args[0].([]value), "key secret"))
+			priv := ed25519.NewKeyFromSeed(seed[:])
+			out := make(array, 64)
+			for k := range out {
+				out[k] = priv[k]
+			}
+			return out
+		},
 		"(" + ed + ".PrivKeyEd25519).PubKey": func(fr *frame, args []value) value {
 			priv := args[0].(array)
 			pub := make(array, 32)
@@ -266,5 +278,36 @@ func init() {
 		},
 	} {
 		externals[k] = v
+	}
+}
+
+func keccak256(parts ...[]byte) []byte {
+	h := sha3.NewLegacyKeccak256()
+	for _, p := range parts {
+		h.Write(p)
+	}
+	return h.Sum(nil)
+}
+
+func init() {
+	const gcrypto = "github.com/ethereum/go-ethereum/crypto"
+	keccakOf := func(fr *frame, args []value) []byte {
+		fr.i.x.stub("keccak256 (native on concrete bytes)")
+		var parts [][]byte
+		for _, p := range args[0].([]value) {
+			parts = append(parts, concreteBytes(p.([]value), "keccak input"))
+		}
+		return keccak256(parts...)
+	}
+	externals[gcrypto+".Keccak256"] = func(fr *frame, args []value) value {
+		return bytesValue(keccakOf(fr, args))
+	}
+	externals[gcrypto+".Keccak256Hash"] = func(fr *frame, args []value) value {
+		h := keccakOf(fr, args)
+		out := make(array, 32)
+		for k := range out {
+			out[k] = h[k]
+		}
+		return out
 	}
 }
